@@ -3,6 +3,7 @@ import Logg.Bridge.Registry
 import Logg.Gen.Decisions
 import Logg.Model.Logfmt
 import Logg.Model.JsonRead
+import Logg.Model.Strip
 import Logg.Lemmas.SgrBase
 import Logg.Model.Unquote
 import Logg.Model.IsPrint
@@ -87,6 +88,7 @@ def stepQ (toks : List String) : String :=
         | none => "err"
       | none => "err"
     | none => "bad-op"
+  | ["strip", s] => match ofHex s with | some s => toHex (stripSgr s) | none => "bad-op"
   | ["junq", s] => match ofHex s with | some s => optHex (jsonUnquote s) | none => "bad-op"
   | _ => "bad-op"
 
